@@ -155,6 +155,16 @@ func (m Migrator) AutoMigrate(values ...interface{}) error {
 						if err = execTx.Migrator().AddColumn(value, dbName); err != nil {
 							return err
 						}
+
+						// the unique constraint of a new column has to be created as well (existing columns: MigrateColumnUnique)
+						if field := stmt.Schema.FieldsByDBName[dbName]; field != nil && field.Unique && !field.PrimaryKey {
+							constraint := m.DB.NamingStrategy.UniqueName(stmt.Table, field.DBName)
+							if !queryTx.Migrator().HasConstraint(value, constraint) {
+								if err = execTx.Migrator().CreateConstraint(value, constraint); err != nil {
+									return err
+								}
+							}
+						}
 					} else {
 						// found, smartly migrate
 						field := stmt.Schema.FieldsByDBName[dbName]
